@@ -26,6 +26,7 @@ class Request:
         self.jit_kwargs = dict(jit_kwargs or {})
         self.twin_of = None
         self.cfg_options = None  # options delivered through $PWD/ffcx_options.json
+        self.jit_env = None  # environment variables in force while the JIT runs (CC, CFLAGS ...)
 
     def source(self):
         return PREAMBLE + "\n".join(self.stmts) + "\n"
@@ -1422,3 +1423,11 @@ def _expr_roles(name, body):
 
 _expr_roles("expr_roles_fg", "f.dx(0) + g + k * f + m")
 _expr_roles("expr_roles_gf", "g.dx(0) + f + m * g + k")
+
+
+# compiler and flags chosen through the environment (setuptools honours CC / CFLAGS / CPPFLAGS /
+# LDFLAGS): they change the build command just like cffi_extra_compile_args do
+for _lab, _env in (("envCFLAGS", {"CFLAGS": "-O1 -DFFCX_VERIF_ENV=1"}), ("envCC", {"CC": "gcc -DFFCX_VERIF_CC=1"}),
+                   ("envCPPFLAGS", {"CPPFLAGS": "-DFFCX_VERIF_CPP=1"})):
+    _r = _add(POOL["stiff_p2_triangle"].variant(f"@{_lab}", tags=("family", "jitonly", "goldonly")))
+    _r.jit_env = dict(_env)
